@@ -1,6 +1,7 @@
 import QscModel.Gen.F2C1
 import QscModel.Gen.F2CRes
 import QscModel.Gen.ToRZ
+import QscProofs.Tactics
 import Mathlib.Tactic.Ring
 import Mathlib.Tactic.Linarith
 import Mathlib.Analysis.SpecialFunctions.Complex.Arg
@@ -56,7 +57,7 @@ theorem one_point_is_position_r1 (o : Ops K) (i : Gen.F2C1.In K) :
         + Gen.F2C1.total_y_r1 o i * Gen.F2C1.total_y_r1 o i) ∧
     Gen.F2C1.total_phi_r1 o i = o.atan2 (Gen.F2C1.total_y_r1 o i) (Gen.F2C1.total_x_r1 o i) := by
   intro S c s
-  refine ⟨rfl, rfl, rfl, rfl, rfl⟩
+  refine ⟨?_, ?_, ?_, ?_, ?_⟩ <;> qsc_rfl [S, c, s, cartX, cartY]
 
 /-- order ≠ r1: `total_{x,y,z}` are the Cartesian components of `r₀ + X n + Y b + Z t` -/
 theorem one_point_is_position_r2 (o : Ops K) (i : Gen.F2C1.In K) :
@@ -75,7 +76,7 @@ theorem one_point_is_position_r2 (o : Ops K) (i : Gen.F2C1.In K) :
         + Gen.F2C1.total_y_r2 o i * Gen.F2C1.total_y_r2 o i) ∧
     Gen.F2C1.total_phi_r2 o i = o.atan2 (Gen.F2C1.total_y_r2 o i) (Gen.F2C1.total_x_r2 o i) := by
   intro S c s
-  refine ⟨rfl, rfl, rfl, rfl, rfl⟩
+  refine ⟨?_, ?_, ?_, ?_, ?_⟩ <;> qsc_rfl [S, c, s, cartX, cartY]
 
 /-- the rotation preserves the horizontal length: `x² + y² = vR² + vphi²` when `c² + s² = 1` -/
 theorem cart_norm (c s vR vphi : K) (h : c * c + s * s = 1) :
@@ -242,8 +243,10 @@ theorem shape_at_theta_r1 (o : Ops K) (i : Gen.ToRZ.In K) :
     X_at_this_theta_r1 o i = i.r * (i.X1c_untwisted * o.cos i.theta + i.X1s_untwisted * o.sin i.theta) ∧
     Y_at_this_theta_r1 o i = i.r * (i.Y1c_untwisted * o.cos i.theta + i.Y1s_untwisted * o.sin i.theta) ∧
     Z_at_this_theta_r1 o i = 0 := by
-  refine ⟨rfl, rfl, ?_⟩
-  simp only [Z_at_this_theta_r1, Nat.cast_zero, zero_mul]
+  refine ⟨?_, ?_, ?_⟩
+  · qsc_rfl
+  · qsc_rfl
+  · simp only [Z_at_this_theta_r1, Nat.cast_zero, zero_mul]
 
 /-- O(r²) shapes -/
 theorem shape_at_theta_r2 (o : Ops K) (i : Gen.ToRZ.In K) :
@@ -281,25 +284,25 @@ theorem shape_truncation (o : Ops K) (i : Gen.ToRZ.In K) :
       + i.r ^ 3 * (i.X3c1_untwisted * o.cos i.theta + i.X3s1_untwisted * o.sin i.theta
           + i.X3c3_untwisted * o.cos (3 * i.theta) + i.X3s3_untwisted * o.sin (3 * i.theta)) := by
   rw [(shape_at_theta_r3 o i).1, (shape_at_theta_r2 o i).1, (shape_at_theta_r1 o i).1]
-  exact ⟨rfl, rfl⟩
+  refine ⟨?_, ?_⟩ <;> qsc_rfl
 
 /-- order r1: `to_RZ` returns the values of `Frenet_to_cylindrical_1_point` at the same `phi0`, same interpolants -/
 theorem toRZ_is_one_point_r1 (o : Ops K) (i : Gen.ToRZ.In K) :
     R_r1 o i = Gen.F2C1.total_R_r1 o ⟨i.phi0⟩ ∧ Z_r1 o i = Gen.F2C1.total_z_r1 o ⟨i.phi0⟩ ∧
-    phi_out_r1 o i = Gen.F2C1.total_phi_r1 o ⟨i.phi0⟩ :=
-  ⟨rfl, rfl, rfl⟩
+    phi_out_r1 o i = Gen.F2C1.total_phi_r1 o ⟨i.phi0⟩ := by
+  refine ⟨?_, ?_, ?_⟩ <;> qsc_rfl
 
 /-- order r2 (branch `order != 'r1'` of the point map) -/
 theorem toRZ_is_one_point_r2 (o : Ops K) (i : Gen.ToRZ.In K) :
     R_r2 o i = Gen.F2C1.total_R_r2 o ⟨i.phi0⟩ ∧ Z_r2 o i = Gen.F2C1.total_z_r2 o ⟨i.phi0⟩ ∧
-    phi_out_r2 o i = Gen.F2C1.total_phi_r2 o ⟨i.phi0⟩ :=
-  ⟨rfl, rfl, rfl⟩
+    phi_out_r2 o i = Gen.F2C1.total_phi_r2 o ⟨i.phi0⟩ := by
+  refine ⟨?_, ?_, ?_⟩ <;> qsc_rfl
 
 /-- order r3 (the point map has only the two branches; r3 takes `order != 'r1'`) -/
 theorem toRZ_is_one_point_r3 (o : Ops K) (i : Gen.ToRZ.In K) :
     R_r3 o i = Gen.F2C1.total_R_r2 o ⟨i.phi0⟩ ∧ Z_r3 o i = Gen.F2C1.total_z_r2 o ⟨i.phi0⟩ ∧
-    phi_out_r3 o i = Gen.F2C1.total_phi_r2 o ⟨i.phi0⟩ :=
-  ⟨rfl, rfl, rfl⟩
+    phi_out_r3 o i = Gen.F2C1.total_phi_r2 o ⟨i.phi0⟩ := by
+  refine ⟨?_, ?_, ?_⟩ <;> qsc_rfl
 
 /-- order r1 end to end: if the interpolants built by `to_RZ` (`convert_to_spline(X_at_this_theta)` …) reproduce
 the shapes at `phi0`, the returned `(R, Z)` are the cylindrical radius and height of `r₀ + X(θ) n + Y(θ) b` -/
@@ -322,7 +325,7 @@ theorem toRZ_position_r1 (o : Ops K) (i : Gen.ToRZ.In K)
   have hX' : o.spline "X_spline" i.phi0 = X := hX
   have hY' : o.spline "Y_spline" i.phi0 = Y := hY
   simp only [R_r1, Z_r1, phi_out_r1, hX', hY']
-  exact ⟨rfl, rfl, rfl⟩
+  refine ⟨?_, ?_, ?_⟩ <;> qsc_rfl [S, c, s, X, Y, x, y]
 
 /-- order r3 end to end -/
 theorem toRZ_position_r3 (o : Ops K) (i : Gen.ToRZ.In K)
@@ -346,7 +349,7 @@ theorem toRZ_position_r3 (o : Ops K) (i : Gen.ToRZ.In K)
     phi_out_r3 o i = o.atan2 y x := by
   intro S c s X Y Z x y
   simp only [R_r3, Z_r3, phi_out_r3, hX, hY, hZ]
-  exact ⟨rfl, rfl, rfl⟩
+  refine ⟨?_, ?_, ?_⟩ <;> qsc_rfl [S, c, s, X, Y, x, y]
 
 /-- order r2 end to end -/
 theorem toRZ_position_r2 (o : Ops K) (i : Gen.ToRZ.In K)
@@ -370,7 +373,7 @@ theorem toRZ_position_r2 (o : Ops K) (i : Gen.ToRZ.In K)
     phi_out_r2 o i = o.atan2 y x := by
   intro S c s X Y Z x y
   simp only [R_r2, Z_r2, phi_out_r2, hX, hY, hZ]
-  exact ⟨rfl, rfl, rfl⟩
+  refine ⟨?_, ?_, ?_⟩ <;> qsc_rfl [S, c, s, X, Y, x, y]
 
 end Shapes
 
